@@ -232,7 +232,7 @@ CHECKS = {
              "numpy SVD/eigh of the masked matrix, orthonormality, label validity, global ordering and exact restoration.",
         design_ref="DESIGN.md §4 C18",
         note="Trusted: numpy/LAPACK eigh and svd. Krylov dimension <= 60 (quick) / 300 (thorough).",
-        technique="property-based testing (Hypothesis) with dense linear-algebra oracles (differential vs numpy/scipy)",
+        technique="property-based testing (Hypothesis) with dense linear-algebra oracles (differential vs numpy/scipy) + coverage-guided fuzzing (atheris/libFuzzer) of the same strategy and oracle",
     ),
     "C20": dict(
         category="exploration",
@@ -244,7 +244,7 @@ CHECKS = {
              "the builder submits.",
         design_ref="DESIGN.md §4 C20",
         note="Trusted: harness bit-mask minimum cover and BFS matching (cross-validated on every enumerated graph). The finite part is exhaustive.",
-        technique="exhaustive enumeration + property-based testing (Hypothesis) against an independent matching/cover oracle (Koenig's theorem)",
+        technique="exhaustive enumeration + property-based testing (Hypothesis) + coverage-guided fuzzing (atheris/libFuzzer) against an independent matching/cover oracle (Koenig's theorem)",
     ),
     "C19": dict(
         category="exploration",
